@@ -9,11 +9,11 @@ KINDS = ('COMP', 'DECOMP', 'PLACE')
 # implementation-level oracle classes with a name of their own (see known_findings.d/C12.json for their status)
 ORACLE_CLASS = {
     'narrowing': 'c12-narrowing', 'bs-zero': 'c12-bs-zero', 'call-typing': 'c12-call-typing',
-    'intrinsic-padding': 'c12-intrinsic-padding', 'nulless-furibug': 'c12-nulless-furibug',
+    'intrinsic-padding': 'c12-intrinsic-padding', 'nulless-furibug': 'c12-nulless-furibug', 'mask-overflow': 'c12-mask-overflow',
 }
 # switches of the generated table: (Coq term, violation class when false, what, repro input of findings/repro).
-# All five were defects of the original tree, repaired in /repo (known_findings.d/C12.json: fixed); a switch that goes back
-# to false is a regression and a violation.
+# The first five were defects of the original tree, repaired in /repo (known_findings.d/C12.json: fixed); a switch that goes
+# back to false is a regression and a violation.  The last one (mask overflow) is still open.
 FLAGS = [
     ('all_checked gen_codec', 'c12-narrowing',
      'an integer argument that does not fit its 1- or 2-byte field (or the 16-bit timeline arg0) is stored truncated (`as _` in encode_args): '
@@ -30,6 +30,9 @@ FLAGS = [
     ('cd_nulless_furibug_rejected gen_codec', 'c12-nulless-furibug',
      'a string parameter with both nulless and furibug is accepted; after a furigana line its text reads back with that line\'s masked bytes '
      'attached (or not at all): side condition of C12_parsed_signature_is_covered', None),
+    ('cd_mask_overflow_checked gen_codec', 'c12-mask-overflow',
+     'a register argument beyond the 16th parameter is stored as an immediate without a diagnostic (the too-many-arguments check of encode_args '
+     'can never fire); theorem C12_param_mask_overflow_refuted', None),
 ]
 
 def eval_with_retry(prop, imports, case_type, cases, shard):
